@@ -112,7 +112,9 @@ type ReqOpts struct {
 	OneOutput    bool // stored responses all carry a well-formed output (their shape only matters to callbacks)
 	OnlyState    int  // -1: any state
 	Huge         bool // model the SDK's 255-bit range checks; the state holds what a chain can hold (amounts < 2^127)
-	Exchange     bool // the host application knows a second token ("gold"); bindings publish their price in it
+	ModuleGone   bool // with Module: the owning module may have no callbacks registered in this application (a context
+	// that came in through a genesis import)
+	Exchange bool // the host application knows a second token ("gold"); bindings publish their price in it
 }
 
 // ctxFields draws the lifecycle-independent fields of a context within the CTX invariant.
@@ -192,7 +194,11 @@ func NewReqScene(o ReqOpts) *ReqScene {
 		p.SlashFraction = sdk.ZeroDec()
 		k.SetParams(ctx, p)
 	}
-	s.Log = registerCallbacks(k)
+	if o.Module && o.ModuleGone && vf.Bool("moduleGone") {
+		s.Log = &cbLog{}
+	} else {
+		s.Log = registerCallbacks(k)
+	}
 	s.N = 1 + vf.Choice("nprov", o.MaxProv)
 	s.Owner = vf.Addr("owner", 20)
 	s.Consumer = vf.Addr("consumer", 20)
